@@ -432,7 +432,7 @@ PROBS = [0.0, 0.0, 1e-5, 0.001, 0.03, 0.1, 0.25, 0.3, 0.5, 0.75, 0.999, 1.0, 2.0
 BPS = [None, None, None, None, 0.0, 0.3, 0.5, 0.5, 0.999, 1.0, -0.25]
 BURSTS = [None, None, None, None, [1, 1], [1, 3], [2, 5], [0, 0], [0, 2], [3, 3], [-2, 1], [2, 9], [5, 70000]]
 MODES = ['e', 'e', 'erasure', 'n', 'n', 'noise', 'x']
-NAMES = ['a.txt', 'b.bin', 'sub/c', 'sub/deep/d.dat', 'Sub2/e', 'z', 'sub/a.txt', 'sub/deep/more/f', '0', 'sub.d/g']
+NAMES = ['a.txt', 'b.bin', 'sub/c', 'sub/deep/d.dat', 'Sub2/e', 'z', 'sub/a.txt', 'sub/deep/more/f', '0', 'sub.d/g', '50%d {x}.bin']
 
 
 def gen_header(rng, size, bs):
